@@ -292,6 +292,11 @@ fn parse_sequence_header(obu_data: &[u8], header_size: usize) -> Option<Av1Confi
     // seq_profile: 3 bits
     let seq_profile = reader.read_bits(3)? as u8;
 
+    // Reserved profile values are invalid input, not an internal error.
+    if seq_profile > 3 {
+        return None;
+    }
+
     // INV-204: Sequence profile must be valid (0-3)
     assert_invariant!(
         seq_profile <= 3,
